@@ -97,4 +97,20 @@ func init() {
 		Technique: "panic-site enumeration with mechanical exceptions; AST sibling rule; call-graph SCC + dominance rule for the memoisation-before-descent requirement",
 		DesignRef: "DESIGN.md section 2 R9, R14; section 3 C11",
 	})
+	register(&PropSpec{
+		ID:    "C15",
+		Level: "other",
+		Decided: "whether a transient buffer CAN flow into something that is kept - a property of the code, whereas whether it DOES alias depends on chunking and buffer growth at run time: (a) every zero-copy []byte->string view flows only into lookups, comparisons, conversions that copy, and consumers that do not keep it; (b) json hands a view to a visitor that may keep it only on the allocated==true branch, and unquote sets allocated only for a buffer allocated on that path and stored nowhere else; (c) all OnStringRef/OnKeyRef implementations copy, forward by reference, write out or only look at their bytes; (d) parser input chunks are neither written through nor stored in parser fields; []byte views of string memory are only read; (e) unsafe.Pointer/uintptr conversions pass the unsafeptr analyzer and no pointer is held as an integer.",
+		NotDecided: "'same results when a GC runs between any two events' beyond the pointer-conversion patterns (the scratch-slot reinterpret casts in makeArrayPtr/makeMapPtr rely on the allocation's own type information, which is not modelled); aliasing through reflection.",
+		Assumptions: []string{
+			"io.Writer.Write does not retain its argument; StringRefVisitor callbacks consume or copy (both documented contracts)",
+			"external (standard library) functions do not retain string/[]byte arguments",
+			"string<->[]byte conversions in Go copy",
+		},
+		TrustedBase: baseTrusted,
+		Rules:       []RuleRun{{"R16", R16}},
+		LevelText:   "Structural necessary conditions decided by an interprocedural alias-flow analysis with per-parameter retention summaries (fixpoint) over the whole library. Tests parse from immutable buffers that are never reused, so an alias is indistinguishable from a copy; the flow rule does not depend on any buffer history.",
+		Technique:   "interprocedural alias/retention flow on SSA with parameter summaries (retains / returns-alias / writes-through), path-sensitive freshness gate for json.unquote, dominance gate at the hand-over sites, x/tools unsafeptr pass",
+		DesignRef:   "DESIGN.md section 2 R16; section 3 C15",
+	})
 }
